@@ -1,7 +1,7 @@
 """Per-property configuration of the checks (which Lean modules carry the theorems, which
 harness suites tie them to /repo, what a difference means)."""
 
-HOOK_COMMITS = ["6ca0a80", "c45c892", "db9ce46"]
+HOOK_COMMITS = ["6ca0a80", "c45c892", "db9ce46", "364358b", "52bce3f"]
 NOT_YET = {}
 
 def _c01_weight(line):
@@ -335,6 +335,43 @@ PROPS = {
             "C17_* theorems prove the model equals the reference merge; the implementation produced a different value or error kind "
             "for this partial record.",
         "exhaustive_quick": False,
+    },
+    "C16": {
+        "lean_modules": ["TemporalModel.Props.C16"],
+        "suites": ["c16"],
+        "spec_ops": {"cal_rt": "cal_rt_spec"},
+        "feed_ops": {"cal_law": "cal_law_chk"},
+        "level_text": "Proof, for the calendars whose rules are arithmetic (gregory, buddhist, roc, japanese, coptic, ethiopic, "
+                      "ethioaa, indian, islamic-civil, islamic-tbla) and EVERY date of Temporal's range: C16_daycount_inverse (day "
+                      "<-> (year, month, day) are mutually inverse and every produced date exists; one generic theorem for any "
+                      "calendar given by year starts and month lengths, instantiated five times), C16_fields_bounds (day <= "
+                      "days-in-month, month <= months-in-year, day-of-year <= days-in-year, month code agrees with month), "
+                      "C16_consecutive_days (the next ISO day is the next calendar day; era year follows the year or a new era starts "
+                      "at 1 - including the five Japanese era changes), C16_rebuild_from_year_code / _year_month / _era (from_partial "
+                      "through the crate's era table, month-code validation and the library's date_from_codes returns the original "
+                      "ISO date from each of the three field sets, both overflow modes), C16_japanese_nonpositive_year (the one "
+                      "exception, proved as a fact of the code), C16_with_calendar_keeps_iso. For ALL calendars: "
+                      "C16_era_names_accepted (every era name handed to the library is a code that calendar accepts), "
+                      "C16_reported_eras_accepted, C16_alias_unambiguous / C16_alias_resolves, C16_identifier_case_insensitive / "
+                      "_lower_idem / _canonical / _roundtrip. Tie: every getter, the consecutive-day pair, the three rebuild routes, "
+                      "from_partial on random field subsets and on every (calendar, era alias, era year around each bound) cell, the "
+                      "resolved library arguments (hook) and identifier parsing are compared with the model for the modelled "
+                      "calendars; for chinese, dangi, hebrew, persian, islamic, islamic-umalqura, japanext the crate's own resolution "
+                      "is compared exactly, and the fields the implementation reports are handed to the driver, which evaluates "
+                      "the same Lean law predicates (FieldsOk, Consecutive) on them; the rebuild law is compared with its "
+                      "specification constant.",
+        "level_note": "Trusted: Lean kernel (+propext, Classical.choice, Quot.sound); hand model of calendar.rs (getters, "
+                      "date_from_partial, get_era_info, from_utf8), calendar/types.rs (EraYear, MonthCode::validate, "
+                      "month_to_month_code), calendar/era.rs; the calendrical library (icu_calendar 2.0.0-beta2, "
+                      "calendrical_calculations 0.1.3) is MODELLED, not verified: its arithmetic calendars, the Japanese era table and "
+                      "the era codes date_from_codes accepts (libraryAccepts) were read off its source and are tied by the "
+                      "correspondence run only. Astronomical / table-driven calendars are not modelled: for them the theorems cover "
+                      "the crate's glue, and the laws are evaluated (Lean predicates) on sampled dates, which is a search, not a proof. "
+                      "Calendar::from_str on annotated strings is modelled for the date-time form only (the grammar is C12).",
+        "why_difference_is_violation":
+            "The model's fields are proved to describe the ISO day (bounds, consecutive days, three rebuild routes, C16_* theorems) "
+            "and its era/identifier tables are proved coherent; the implementation reported other fields, rebuilt another date, "
+            "resolved an era or month code differently, or reported fields that break the consecutive-day law on this input.",
     },
     "C02": {
         "lean_modules": ["TemporalModel.Props.C02"],
